@@ -167,6 +167,82 @@ def generate(files, ops):
     return muts
 
 
+JS_FILES = ["main.js", "js/source-map/index.js", "js/stack-trace/index.js", "js/source-map/node_source_map.js"]
+
+
+def generate_js(ops):
+    muts = []
+
+    def block_end(txt, i):
+        depth, j, n = 0, i, len(txt)
+        while j < n:
+            ch = txt[j]
+            if ch in "'\"`":
+                q = ch
+                j += 1
+                while j < n and txt[j] != q:
+                    j += 2 if txt[j] == "\\" else 1
+            elif ch == "/" and txt[j : j + 2] == "//":
+                j = txt.find("\n", j)
+                if j < 0:
+                    return -1
+            elif ch == "{":
+                depth += 1
+            elif ch == "}":
+                depth -= 1
+                if depth == 0:
+                    return j + 1
+            j += 1
+        return -1
+
+    for rel in JS_FILES:
+        path = os.path.join(factsmod.REPO, rel)
+        if not os.path.exists(path):
+            continue
+        body = open(path).read()
+        if not ops or "jseqswap" in ops:
+            for m in re.finditer(r"([A-Za-z_][\w.]*(?:\[[\w.]+\])?) (===|!==) ('[^'\n]*'|[A-Za-z_][\w.]*|\d+)", body):
+                new = body[: m.start()] + "%s %s %s" % (m.group(3), m.group(2), m.group(1)) + body[m.end() :]
+                muts.append(("jseqswap:%s:%d" % (rel, body.count("\n", 0, m.start()) + 1), rel, new, m.group(0)[:100]))
+        if not ops or "jsifswap" in ops:
+            for m in re.finditer(r"\bif \(([^{}\n]{2,90})\) \{", body):
+                pre = body[max(0, m.start() - 6) : m.start()]
+                if "else" in pre:
+                    continue
+                b1 = m.end() - 1
+                e1 = block_end(body, b1)
+                if e1 < 0:
+                    continue
+                m2 = re.match(r"\s*else \{", body[e1:])
+                if not m2:
+                    continue
+                b2 = e1 + m2.end() - 1
+                e2 = block_end(body, b2)
+                if e2 < 0:
+                    continue
+                new = body[: m.start()] + "if (!(" + m.group(1) + ")) " + body[b2:e2] + " else " + body[b1:e1] + body[e2:]
+                muts.append(("jsifswap:%s:%d" % (rel, body.count("\n", 0, m.start()) + 1), rel, new, m.group(0)[:100]))
+        if not ops or "jsconstlet" in ops:
+            for m in re.finditer(r"^(\s+)const ([a-z]\w+) = ", body, re.M):
+                new = body[: m.start()] + m.group(1) + "let " + m.group(2) + " = " + body[m.end() :]
+                muts.append(("jsconstlet:%s:%d" % (rel, body.count("\n", 0, m.start()) + 1), rel, new, m.group(0).strip()[:100]))
+        if not ops or "jsrename" in ops:
+            for m in re.finditer(r"^\s+(?:const|let) ([a-z][A-Za-z]{5,}) = ", body, re.M):
+                nm = m.group(1)
+                if len(re.findall(r"\b(?:const|let) %s\b" % nm, body)) != 1 or re.search(r"\.%s\b" % nm, body) or re.search(r"\b%s:" % nm, body) or re.search(r"[{,] *%s *[},]" % nm, body):
+                    continue
+                new = re.sub(r"\b%s\b" % nm, nm + "R", body)
+                muts.append(("jsrename:%s:%s" % (rel, nm), rel, new, "const %s" % nm))
+        if not ops or "jshoistcond" in ops:
+            for m in re.finditer(r"^(\s*)if \(([^{}\n]{6,90})\) \{$", body, re.M):
+                prev = body[: m.start()].rstrip()
+                if prev.endswith("else"):
+                    continue
+                new = body[: m.start()] + m.group(1) + "const hoistedCondition = " + m.group(2) + "\n" + m.group(1) + "if (hoistedCondition) {" + body[m.end() :]
+                muts.append(("jshoistcond:%s:%d" % (rel, body.count("\n", 0, m.start()) + 1), rel, new, m.group(2)[:100]))
+    return muts
+
+
 def one(args):
     tmp, base, name, rel, new_text, line = args
     d = os.path.join(tmp, re.sub(r"[^A-Za-z0-9_-]", "_", name))
@@ -205,7 +281,10 @@ def main():
     ap.add_argument("--rerun", help="a previous --out file: run only the mutants it reported as ALARM / LOST")
     a = ap.parse_args()
     files = production_files(a.files.split(",") if a.files else None)
-    muts = generate(files, a.ops.split(",") if a.ops else None)
+    ops_ = a.ops.split(",") if a.ops else None
+    muts = generate(files, ops_) if not (ops_ and all(o.startswith("js") for o in ops_)) else []
+    if not ops_ or any(o.startswith("js") for o in ops_):
+        muts += generate_js(ops_)
     if a.rerun:
         prev = {r["name"] for r in json.load(open(a.rerun)) if r["status"] in ("ALARM", "LOST")}
         muts = [m for m in muts if m[0] in prev]
